@@ -20,6 +20,7 @@ EXPLANATION = (
     "the residual graph receives round(value) copies of each edge under the key of that same edge and layer; the splice inserts the "
     "closed walk minus its duplicated first vertex right after the anchor's first occurrence; an all-zero layer yields []; in node-weighted mode the walk handed out is "
     "obtained from the internal walk by the reader that matches the expansion scheme (one original node per entry node, step 2).  "
+    " (R4) the reconstructed walk is not filtered away afterwards: the remove-empty filters of the cyclic models decide emptiness on the internal walk (C01.R5). "
     "NOT decided: that one single s-t walk results for every Eulerian multigraph (Hierholzer's correctness), connectivity assumptions."
 )
 DECIDED = ["no edge dropped, none invented: linear use of residual edges in the two trail loops",
